@@ -442,7 +442,7 @@ def m_lines_next(e, st, a, ctx):
 @model(r'std::str::<impl str>::to_lowercase', r'std::str::<impl str>::to_ascii_lowercase')
 def m_to_lowercase(e, st, a, ctx):
     sv = as_str(e, st, a[0])
-    if 'ascii' not in ctx[0]:
+    if 'ascii' not in ctx[0] and not getattr(e, 'panic_only', False):       # (for panic-freedom the exact mapping is irrelevant)
         # exact only for ASCII and case-less characters: proof obligation on the harness alphabet
         for i, c in enumerate(sv.ch):
             if is_sym(c):
